@@ -331,7 +331,7 @@ pub fn generate(prop: &str, rng: &mut Rng, plan: &mut Plan, index: u64) {
     // reads
     let starty = matches!(c.api, CommApi::Start | CommApi::ExecCommunicate | CommApi::PipeCommunicate);
     if starty {
-        let n = if limits || timing { 1 + rng.below(6) as usize } else { rng.below(2) as usize };
+        let n = if limits || timing { 1 + rng.below(6) as usize } else if prop == "C02" { rng.below(4) as usize } else { rng.below(2) as usize };
         for _ in 0..n {
             let mut st = ReadStep::default();
             if limits {
@@ -348,8 +348,14 @@ pub fn generate(prop: &str, rng: &mut Rng, plan: &mut Plan, index: u64) {
                 if rng.chance(1, 4) {
                     st.size = Some(gen_size_limit(rng));
                 }
-            } else if rng.chance(1, 3) {
-                st.size = Some(gen_size_limit(rng));
+            } else {
+                if rng.chance(1, 3) {
+                    st.size = Some(gen_size_limit(rng));
+                }
+                // "input once ... then EOF" must also hold across timed-out and resumed reads
+                if prop == "C02" && rng.chance(1, 3) {
+                    st.time_ns = Some(gen_time_limit(rng).min(2_000_000_000));
+                }
             }
             c.reads.push(st);
         }
